@@ -7,6 +7,8 @@ the eigenvector `numpy.linalg.eigh` produced is captured by wrapping `numpy.lina
 hook) and *certified* by the proved checker `isTopEig`; the cost matrix handed to `linear_sum_assignment`, its
 reduced matrix, and the edges handed to / matchings returned by `uno` are captured by wrapping the module-level
 names `align.linear_sum_assignment` and `align.uno`.
+The library's own random-motion generator `util.random_rotation_matrix` is replayed through `Model/RandRot.lean` (op R) on the
+three uniform numbers captured from numpy's seeded generator.
 Oracle: a direct Python statement of the property on the implementation's outputs (independent of Lean).
 """
 from __future__ import annotations
@@ -43,6 +45,8 @@ PROPERTY = "C12"
 LEAN_TARGETS = ["QcelVerif.Props.C12", "QcelVerif.Lemmas.QuatSurj", "QcelVerif.Lemmas.RigidMotion", "QcelVerif.Props.C12Full",
                 "QcelVerif.Model.UnoOrderings", "QcelVerif.Lemmas.UnoEnum", "QcelVerif.Lemmas.UnoAssemble", "QcelVerif.Props.C12Uno",
                 "QcelVerif.Model.KabschUnique", "QcelVerif.Lemmas.RotUnique", "QcelVerif.Props.C12Unique",
+                "QcelVerif.Props.C12Shift", "QcelVerif.Model.KabschMirror", "QcelVerif.Props.C12Mirror",
+                "QcelVerif.Model.RandRot", "QcelVerif.Props.C12RandRot",
                 "QcelVerif.Driver.C12"]
 DRIVER = "QcelVerif/Driver/C12.lean"
 THEOREMS = [
@@ -104,6 +108,38 @@ THEOREMS = [
     ("QcelVerif.Kabsch.maxCross2_pos_iff", "the driver's exact margin maxCross2 c = max over pairs of |a x b|^2 is positive iff NonCollinear c"),
     ("QcelVerif.Kabsch.nonCollinearBy_iff_le_maxCross2", "for m > 0: two atoms with |a x b|^2 >= m exist iff m <= maxCross2 c (the oracle's class g >= G_MIN is NonCollinearBy G_MIN)"),
     ("QcelVerif.Kabsch.maxCross2_map_rowMul", "the margin of a rotated copy equals the margin of the original (proper rotations preserve |a x b|^2)"),
+    # --- quantitative recovery of the SHIFT (Props/C12Shift.lean)
+    ("QcelVerif.Kabsch.shift_error_eq", "identity, U U^T = I only: for the copy c = r.A + t and the recipe (c - T).U, T - t = p.A - p.U^T - d.U^T for every point p with d = its residual (recipe(copy p) - p): the shift error is the rotation error applied to the reference centroid plus the rotated-back centroid residual"),
+    ("QcelVerif.Kabsch.centred_residual_nrm2", "|dev r - dev p|^2 = |(r-p).A - (r-p).U^T|^2 for proper U: the centred per-atom residual the harness measures is the quantity recovery_rotation_close is about (R1 = A, R2 = U^T)"),
+    ("QcelVerif.Kabsch.mean_residual_eq", "the mean of the per-atom residuals (centroid of aligned atoms - centroid of reference) is the residual of the centroid (the composite map is affine)"),
+    ("QcelVerif.Kabsch.nrm2_add_le_sq", "square-root-free triangle inequality: |x|^2 <= X^2, |y|^2 <= Y^2, X, Y >= 0 => |x + y|^2 <= (X + Y)^2, every linearly ordered field"),
+    ("QcelVerif.Kabsch.rotation_close_of_close_on_two_any", "rotation_close_of_close_on_two for a vector v of ANY length: |a x b|^2 |v.R1 - v.R2|^2 <= 16 L2 e2 |v|^2 (over Q a vector cannot be normalised, so this is proved, not deduced from the unit-ball statement)"),
+    ("QcelVerif.Kabsch.rotation_error_on_vector", "on a geometry with margin m (NonCollinearBy m), residual^2 <= e2 and |c|^2 <= L2 on every atom: m |w.R1 - w.R2|^2 <= 16 L2 e2 |w|^2 for every vector w"),
+    ("QcelVerif.Kabsch.recovery_shift_close", "quantitative shift recovery: copy c = r.A + t, recipe (c - T).U, A and U proper, centred residual^2 <= e2 and |r - rbar|^2 <= L2 on every atom, two atoms with |a x b|^2 >= m > 0 about the centroid => T - t = rbar.(A - U^T) - dbar.U^T, m |rbar.(A - U^T)|^2 <= 16 L2 e2 |rbar|^2, and |T - t|^2 <= (X + Y)^2 for all X, Y >= 0 with 16 L2 e2 |rbar|^2 <= m X^2 and |dbar|^2 <= Y^2 (i.e. |T - t| <= 4 L eps |rbar| / sqrt m + |dbar|); every linearly ordered field, no square roots"),
+    ("QcelVerif.Kabsch.recovery_shift_close_on_two", "the two-atom form the harness evaluates: two centred atoms a, b with |a|^2,|b|^2 <= L2, centred residuals^2 <= e2, g = |a x b|^2 > 0, any point p with residual d: |T - t|^2 <= (X + Y)^2 whenever 16 L2 e2 |p|^2 <= g X^2 and |d|^2 <= Y^2"),
+    ("QcelVerif.Kabsch.recovery_shift_close_residuals", "the same with the hypotheses stated on what is measured: per-atom residuals of the recipe centred by their mean (<= e2) and the mean residual (<= Y^2)"),
+    ("QcelVerif.Kabsch.centroid_nrm2_le", "the centroid of vectors of square length <= e2 has square length <= e2 (|sum|^2 <= n^2 e2 by induction, no square roots)"),
+    ("QcelVerif.Kabsch.recovery_shift_close_uniform", "explicit from ONE number: |recipe(copy r) - r|^2 <= e2 for every atom (uncentred), radius L2, margin m > 0 => |T - t|^2 <= (X + Y)^2 whenever 64 L2 e2 |rbar|^2 <= m X^2 and e2 <= Y^2, i.e. |T - t| <= (8 L |rbar| / sqrt m + 1) eps"),
+    ("QcelVerif.Kabsch.recovery_shift_exact", "e2 = 0 and zero mean residual => T = t (consistency with motion_unique)"),
+    # --- recipes with mirror = True, and 'mirror images are matched only when requested' (Props/C12Mirror.lean)
+    ("QcelVerif.Kabsch.alignCoords_true_eq", "the model mirrors first (models/align.py:80-83): alignCoords true T U amap g = alignCoords false T U amap (g with y -> -y)"),
+    ("QcelVerif.Kabsch.mirror_recipe_composite", "one atom under a mirror=True recipe: (mirrorY c - T).U = c.(S.U) - T.U with S = diag(1,-1,1), and det(S.U) = -det U: one affine map with an improper linear part"),
+    ("QcelVerif.Kabsch.align_recovers_motion_mirror", "mirror=True on the model's alignCoords: second geometry = mirror image (y -> -y) of the rotated, translated and (through the atom map) shuffled copy, alignCoords true T U amap C = some R exactly, reference NonCollinear about its centroid => U = A^T and T = t (those of the underlying proper motion), and the recipe's linear part S.U = (A.S)^T is the inverse of the improper map that was applied, det -1"),
+    ("QcelVerif.Kabsch.align_recovers_motion_mirror_of_reference", "the other reading, second geometry = rigid copy of the MIRRORED reference c = mirrorY(r).A + t: the mirror=True recipe has U = (S A S)^T and T = mirrorY t"),
+    ("QcelVerif.Kabsch.nonPlanar_iff_not_planar", "three position vectors with non-zero triple product exist iff no plane through the origin contains all position vectors (every linearly ordered field)"),
+    ("QcelVerif.Kabsch.planar_mirror_is_rotation", "a planar centred set coincides with a properly rotated copy of its mirror image: there is P orthogonal with det +1 and mirrorY(a).P = a for every atom (two reflections make a rotation)"),
+    ("QcelVerif.Kabsch.mirror_never_needed_for_planar", "on alignCoords: reference planar about its centroid, second geometry the mirror image of a rigid copy (any proper A, any t, any atom map of the right length) => some recipe with mirror=False and a PROPER rotation superimposes it exactly — the oracle's 'flat' exemption"),
+    ("QcelVerif.Kabsch.no_rotation_onto_mirror_image", "det argument: for a non-planar set no matrix of determinant +1 maps the mirror image back atom by atom (S.P would fix three independent vectors, so det(S.P) = 1, but det(S.P) = -1)"),
+    ("QcelVerif.Kabsch.chiral_needs_mirror", "on alignCoords: reference non-planar about its centroid, second geometry the mirror image of a rigid copy with atom correspondence amap => NO recipe with mirror=False (any shift, any matrix of determinant +1) superimposes it exactly with that correspondence; with B787.mirror_only_on_request: mirror images are matched only when mirror matching is requested"),
+    # --- the library's random-motion generator util.random_rotation_matrix (Model/RandRot.lean, Props/C12RandRot.lean)
+    ("QcelVerif.RandRot.random_rotation_is_proper", "|v|^2 = 1 and st^2 + ct^2 = 1 => M = (2 v v^T - I).R_z(theta).R_z(pi) has M M^T = I and det M = +1 (any commutative ring)"),
+    ("QcelVerif.RandRot.random_rotation_is_proper_source", "the same in the source's normalisation |V|^2 = 2, M = (V V^T - I).R.R_z_pi exactly as np_rand3drot.py:60 writes it"),
+    ("QcelVerif.RandRot.assemble_eq_assembleUnit", "the two forms are the same matrix when V = s v with s^2 = 2"),
+    ("QcelVerif.RandRot.poleVector_nrm2", "the source's V = (sin(phi) r, cos(phi) r, w) has |V|^2 = 2 as soon as sin^2 + cos^2 = 1, r^2 = z, w^2 = 2 - z"),
+    ("QcelVerif.RandRot.randomRotationMatrix_proper", "the whole model function (three numbers and deflection as arguments; sin, cos, sqrt, 2 pi as parameters): proper rotation for EVERY deflection / numbers whenever sin^2 + cos^2 = 1 at the two angles and sqrt(x)^2 = x at z and 2 - z"),
+    ("QcelVerif.RandRot.randomRotationMatrix_proper_real", "over R with Real.sin, Real.cos, Real.sqrt, 2 pi: proper rotation whenever 0 <= u3 * 2 * deflection <= 2"),
+    ("QcelVerif.RandRot.randomRotationMatrix_proper_unit_interval", "in particular for all deflection in [0,1], u3 in [0,1], any u1, u2"),
+    ("QcelVerif.RandRot.randomRotationMatrix_deflection_zero", "deflection = 0 gives the identity matrix (docstring: 'For 0, no rotation') — what the factor R_z(pi) is for"),
 ]
 NX_TEXT_ABSENT = (
     "networkx is absent: algorithm='hungarian_uno' cannot run; wherever the code would ask for it (B787's mirror pre-test hard-codes the default, "
@@ -133,17 +169,21 @@ TRUSTED_BASE = [
     "hand-written model Model/UnoOrderings.lean of the hungarian_uno candidate generation (align.py:296-328, 346-400, 407-431), tied by differential correspondence per call: cost matrix handed to the solver (exact (sumCC[i]-sumRR[j])^2 from independently computed reciprocal distances vs the captured doubles, tolerance 2|a-b|d + d^2 with d = 1e-12(|a|+|b|+1)), zero-edge list (exact), set of matchings (exact, with multiplicity), candidate orderings (exact, as a multiset)",
     "the Hungarian solver (linear_sum_assignment) is property C14's subject: here its reduced matrix is an input of the model, and C14's exact checker certGap is evaluated on every class call (gap <= 1e-9 * (1 + max cost) * k demanded); theorems (b),(c) assume an EXACT certificate — the float gap between 'certGap small' and 'certOK' is not bridged by proof",
     "uno (gph_uno_bipartite.py, networkx simple_cycles etc.) is NOT modelled as an algorithm: only its output SET is, and it is compared per call with the model's proved-complete enumeration; distance_matrix / np.reciprocal (sqrt, division) are inputs of the model",
+    "Model/KabschMirror.lean (reflY = diag(1,-1,1), Planar, NonPlanar, triple product, reflection through a plane): definitions the theorems of Props/C12Mirror.lean are about; the mirror=True recipes themselves are executed by the existing op K (alignCoords true) on every mirrored trial",
+    "hand-written model Model/RandRot.lean of util/np_rand3drot.py:random_rotation_matrix (lines 31-60, every arithmetic step; sin, cos, sqrt and 2 pi are PARAMETERS of the model), tied by differential correspondence (driver op R) on the three uniform doubles captured from numpy's seeded generator: entrywise agreement to 1e-12 with the implementation's matrix on every case of the random-motion stream",
+    "the rational approximations the driver instantiates those parameters with (Model/RandRot.lean: 40-term Taylor series for sin/cos with roundings to 2^-200, floor integer square root scaled by 4^100, 2 pi to 60 decimals) are NOT proved accurate: the driver reports, per case, how far they are from satisfying the hypotheses of randomRotationMatrix_proper (sin^2+cos^2-1 at both angles, |V|^2-2) and how far the model's own matrix is from orthogonal / det 1, and the harness demands all five <= 1e-25 (a larger defect is a model/harness disagreement, mismatch:R); numpy's sin/cos/sqrt and its Mersenne-Twister stream are third-party behaviour taken as input (the uniforms are captured, not modelled)",
 ]
 ASSUMPTIONS = [
     "weight=None (the only way B787 calls kabsch_align); do_plot off; verbose=0",
     NX_TEXT,
     "permutative search only up to 7 atoms and class sizes <= 4 (cost n!); unrelated pairs are aligned with the fixed map only (the property speaks of a known correspondence)",
     "geometries of 2-30 atoms, pairwise distance > 0.5 bohr, coordinates within about +-12 bohr before the shift in [-10,10]^3 (pivot block: shift = pv - pv.U, redrawn until inside that cube); no 'nearly collinear' (1e-7 off-axis) inputs — exactly collinear, planar, symmetric, generic and moderately thin ones (family 'thin': atoms within w of a line, 3e-3 <= w <= 0.3 bohr, rigid copies with the fixed atom map only) are generated",
-    "'mirror images are matched only when requested' is read in both directions: unrequested -> mirror flag never set (all inputs); requested + chiral generic geometry (third singular value >= 0.3 bohr) -> the mirror match is found (kind oracle:mirror_requested_not_found)",
+    "'mirror images are matched only when requested' is read in both directions: unrequested -> mirror flag never set (all inputs); requested + chiral generic geometry (third singular value >= 0.3 bohr) -> the mirror match is found (kind oracle:mirror_requested_not_found). Proved side (Props/C12Mirror.lean): for a reference that is non-planar about its centroid no mirror=False recipe superimposes the mirror image exactly with the applied atom correspondence (chiral_needs_mirror), and for a planar one a mirror=False recipe always does (mirror_never_needed_for_planar: the oracle's exemption of the families 'planar' and 'collinear'); NOT proved: the quantitative version (how large the RMSD of the best mirror=False recipe is for a molecule that is only nearly planar) and anything about OTHER atom correspondences (an achiral non-planar molecule such as methane is matched onto its mirror image by a different atom map)",
+    "random-motion stream: deflection in {1, 0.75, 0.5, 0.3, 0.1, 0.02} (the quantifier's proper rotations as the library itself draws them), three uniform numbers from numpy's global generator seeded per case; deflection outside [0, 1] (z = u3*2*deflection may leave [0, 2] and numpy returns nan) is outside the model's domain (driver answers 'err domain') and is not generated",
     "the degenerate-atom-order mirror block generates only clearly chiral geometries (third singular value >= 0.35 bohr): for a NEARLY planar molecule with a fixed atom map, mols_align=True accepts the unmirrored trial (RMSD below a_convergence = 1e-3 A) before the mirror trial is made and B787's own 1e-4 post-check raises — the fixed-map sibling of C12-molsalign-truncation, seen once (replays/C12-6108cfd6b97c.json), reported and not generated",
     "known finding C12-molsalign-truncation: with mols_align truthy the permutation search stops at the first candidate below a_convergence; a deliberate nearly-symmetric block exercises it and the class is matched on the recorded trial RMSDs only",
     "full optimality over SO(3) is proved over R (Props/C12Full.lean: surjectivity of unit quaternions onto SO(3), optimality against every proper rotation and every proper rigid motion); over Q, where the driver executes, the comparison family is the rational rotations U(p)/|p|^2",
-    "uniqueness clause (Props/C12Unique.lean): PROVED for exact superposition over every linearly ordered field (rotation = A^T, shift = t = cbar - U rbar, on the model's alignCoords, any atom map that is the applied one; NonCollinear shown necessary and sufficient), and quantitatively for a superposition to within eps (|entry of rotation - A^T| <= 4 L eps / sqrt g). NOT proved: that the floating-point aligner reaches a given eps (the residual is measured per case), a quantitative bound for the shift (harness uses |T - t| <= |rbar| sqrt3 rowbound + |mean residual|, derived by hand from T - t = rbar (A - U^T) - dbar U^T), and the mirror=True recipe (the oracle applies the statement after mirroring the second geometry)",
+    "uniqueness clause (Props/C12Unique.lean): PROVED for exact superposition over every linearly ordered field (rotation = A^T, shift = t = cbar - U rbar, on the model's alignCoords, any atom map that is the applied one; NonCollinear shown necessary and sufficient), and quantitatively for a superposition to within eps (|entry of rotation - A^T| <= 4 L eps / sqrt g). The shift is now bounded quantitatively too (Props/C12Shift.lean recovery_shift_close: |T - t| <= 4 L eps |rbar| / sqrt g + |mean residual|, from the proved identity T - t = rbar (A - U^T) - dbar U^T; the harness uses the tighter of this and its former tolerance max(1e-7, hand-derived bound with an extra factor sqrt 3), i.e. outside the former singular-value class the proved bound plus float allowances IS the shift tolerance, typically 1e-11..1e-8 bohr), and the mirror=True recipe is covered (Props/C12Mirror.lean align_recovers_motion_mirror: the code mirrors first, so rotation/shift of a mirror=True recipe are those of the underlying proper motion — what the oracle compares against). Consequently, outside the former singular-value class the clauses oracle:recovery_rotation / oracle:recovery_shift hold for ANY returned recipe with that measured residual (they are theorem bounds evaluated at the measured eps): what an implementation can actually fail there is 'RMSD ~ 0' / atom-by-atom superposition / reported RMSD = applied RMSD, and a finding of the two kinds in that class would point at the harness's float allowances, not at the code (checked by a harness self-test with a deliberately inconsistent shift). NOT proved: that the floating-point aligner reaches a given eps (the residual is measured per case) and the float allowances the harness adds to the proved bounds (orthogonality defect of the returned matrix, 1e-14/1e-12 x coordinate scale)",
     "recovery of rotation and shift is demanded exactly on the class g >= G_MIN = 1e-5 bohr^4, g = max_{i<j} |(r_i - rbar) x (r_j - rbar)|^2 computed exactly by the Lean driver (op N) on the reference's doubles, and only when the returned atom map / mirror flag are the applied ones; tolerances 1e-8 (rotation entries) / 1e-7 bohr (shift) on the former singular-value class (s1 >= 0.3, s1 >= 0.03 s0 — contained in the margin class for n <= 30), and max(those, theorem bound with the measured residual + orthogonality defect) on the rest of the margin class; below the margin (exactly or nearly collinear: the family 'collinear' has g ~ 1e-28 from rounding) nothing is demanded of rotation and shift",
     "the permutative filter (np.allclose, atol=1.0) is modelled with exact rational comparison; knife-edge inputs (difference within one ulp of the tolerance) are not generated",
 ]
@@ -168,7 +208,10 @@ RULE = (
     "kabsch_align and B787 with the fixed map, a quarter of them with pivot placements — inside the margin class g >= 1e-5 bohr^4 of the "
     "uniqueness theorems but mostly outside the former singular-value class; every rigid case sends one N line (exact margin) to the driver. "
     "A case is distinct by (family, n, motion, permutation, route, flags[, pivot class, first atom of the second geometry, special rotation, "
-    "degenerate prefix]) and non-trivial when the motion is not the identity, or the pair is unrelated/noisy."
+    "degenerate prefix]) and non-trivial when the motion is not the identity, or the pair is unrelated/noisy. "
+    "A 'random motion' stream (60 quick / 600 thorough): util.random_rotation_matrix(deflection) and Molecule.scramble(do_rotate=True, "
+    "do_shift=True, deflection) on 3-7 atom generic molecules with numpy's generator seeded per case; one R line per case (the model of "
+    "random_rotation_matrix on the captured uniform numbers); distinct by (deflection, numpy seed, geometry)."
     + (" With networkx: four further blocks through the DEFAULT search hungarian_uno — shuffled rigid copies of 2-30 atoms via B787 (default and "
        "explicit algorithm, uno_cutoff default/1e-3/0.1/1e-2/1e-5, run_resorting on ordered atoms, symmetric molecules with classes of 1-5 "
        "equivalent atoms, pivot placements), mirror images (chiral/achiral, run_mirror on/off), Molecule.scramble+align on 5-14 atoms, and direct "
@@ -186,8 +229,22 @@ LEVEL_TEXT = (
     "molecule that is non-collinear about its centroid EXACTLY has rotation = inverse of the applied one and shift = the applied one (= cbar - U rbar), "
     "stated on the model's alignCoords; non-collinearity is necessary and sufficient (explicit second rotation for collinear sets); and a recipe "
     "that superimposes to within eps has every rotation entry within 4 L eps / sqrt(g) of the applied inverse (g = |a x b|^2 of two atoms about the "
-    "centroid, L their larger norm) — partial: that the float aligner reaches a small eps is measured per case, not proved, and the shift has "
-    "only the exact statement; the oracle demands recovery exactly on the class g >= 1e-5 bohr^4 with g evaluated exactly by the Lean driver; "
+    "centroid, L their larger norm) and its shift within 4 L eps |rbar| / sqrt(g) + |mean residual| of the applied one "
+    "(Props/C12Shift.lean recovery_shift_close, from the proved identity T - t = rbar (A - U^T) - dbar U^T; also explicit from the worst "
+    "per-atom residual alone: |T - t| <= (8 L |rbar| / sqrt g + 1) eps) — partial: that the float aligner reaches a small eps is measured per "
+    "case, not proved; the oracle demands recovery exactly on the class g >= 1e-5 bohr^4 with g evaluated exactly by the Lean driver, the shift "
+    "tolerance outside the former singular-value class being the proved bound (tighter than the former hand-derived one); "
+    "recipes with mirror=True are covered (Props/C12Mirror.lean): the model mirrors first, a mirror=True recipe that superimposes the mirror "
+    "image of a rigid copy exactly has the rotation and shift of the underlying proper motion (linear part of the whole recipe = inverse of the "
+    "improper map applied, det -1), uniquely for non-collinear molecules; a molecule planar about its centroid is always superimposed on its "
+    "mirror image by some mirror=False recipe with a proper rotation, and for a non-planar one no mirror=False recipe does so exactly with the "
+    "applied atom correspondence (det argument) — with mirror_only_on_request the clause 'mirror images are matched only when requested'; "
+    "partial: exact statements only (no bound on the best unmirrored RMSD of a nearly planar chiral molecule), same atom correspondence only; "
+    "the library's generator of random proper rotations util.random_rotation_matrix is modelled (Model/RandRot.lean, transcendental functions as "
+    "parameters) and proved to return an orthogonal matrix of determinant +1 for every deflection and every three numbers under the source's "
+    "normalisation (sin^2+cos^2 = 1, sqrt(x)^2 = x), over R with the real functions for every deflection, u3 in [0,1]; the model is tied to the "
+    "code per case on the captured uniform numbers (entries to 1e-12) — numpy's sin/cos/sqrt/generator and the driver's rational approximations "
+    "of them are not proved; "
     + ("the default search hungarian_uno is modelled (Model/UnoOrderings.lean) and proved, for every size, to enumerate exactly the perfect "
        "matchings of the zero-edge graph and — given an exact C14 certificate per class, a positive cutoff and an exact rigid copy + permutation — "
        "to contain the true atom map among its candidates (cost (sumCC-sumRR)^2 is exactly 0 along it), so that with best_is_min the returned RMSD "
@@ -197,7 +254,7 @@ LEVEL_TEXT = (
        "re-proved here." if NX_AT_IMPORT else
        "hungarian_uno candidate generation is modelled and proved (Props/C12Uno.lean) but NOT exercised in this run (networkx absent: 'permutative' substituted).")
 )
-TECHNIQUE = "Lean 4 proof (ring identities + exact certificate checker soundness + matching-enumeration completeness + rotation uniqueness/stability on non-collinear sets) + per-call certification of numpy.linalg.eigh + differential correspondence + Python oracle"
+TECHNIQUE = "Lean 4 proof (ring identities + exact certificate checker soundness + matching-enumeration completeness + rotation/shift uniqueness and stability on non-collinear sets + mirror/planarity determinant argument + properness of the random-rotation generator) + per-call certification of numpy.linalg.eigh + differential correspondence + Python oracle"
 
 B2A = None  # filled from qcelemental.constants on first use
 DELTA = Fraction(1, 10**11)  # | |q|^2 - 1 | allowed in the certificate
@@ -1687,7 +1744,18 @@ def oracle_recovery(case, case_id, out: Outcome, R, rm, near, slack, rot, shift,
             cfac = 4.0 * L / math.sqrt(float(g))
             rowb = cfac * (eps + 4.0 * L * orth + 1e-14 * scale) + 4.0 * orth + 1e-12
             tol_r = max(1e-8, rowb)
-            tol_s = max(1e-7, float(np.linalg.norm(R.mean(0))) * math.sqrt(3.0) * rowb + float(np.linalg.norm(dbar)) + 1e-12 * scale)
+            # shift: Props/C12Shift.lean `recovery_shift_close` — T - t = rbar (A - U^T) - dbar U^T and
+            # m |w (A - U^T)|^2 <= 16 L2 e2 |w|^2 for EVERY vector w (`rotation_error_on_vector`), so
+            # |T - t| <= |rbar| * (4 L eps / sqrt g) + |dbar| (`recovery_shift_close_on_two`, with L2, eps of the two atoms attaining g
+            # — eps here is the max over ALL atoms, so at least theirs): the proved bound has no factor sqrt(3) (the former hand-derived
+            # tolerance bounded the operator norm of A - U^T by sqrt(3) * max row norm) and no 1e-7 floor; rowb carries the float
+            # allowances (orthogonality defects of the returned and the applied matrix, 1e-14 x coordinate scale), + 1e-12 x scale.
+            # The tighter of former and proved tolerance is used (on seed 0 the observed error is at most 0.33 of the proved bound)
+            rbar_n, dbar_n = float(np.linalg.norm(R.mean(0))), float(np.linalg.norm(dbar))
+            tol_s_hand = rbar_n * math.sqrt(3.0) * rowb + dbar_n + 1e-12 * scale
+            tol_s_thm = rbar_n * rowb + dbar_n + 1e-12 * scale
+            tol_s = min(max(1e-7, tol_s_hand), tol_s_thm)  # never looser than the former max(1e-7, hand-derived)
+            out.count("recovery:shift tolerance = proved bound of recovery_shift_close_on_two" + (" (tighter than the former tolerance)" if tol_s_thm < max(1e-7, tol_s_hand) else " (former tolerance kept: it is tighter)"))
         if dr > tol_r:
             V.append(Finding(kind or "oracle:recovery_rotation", case_id, observed=rot.tolist(), expected=A.T.tolist(),
                              detail=f"rotation differs from the inverse of the applied one by {dr:.3e} (> {tol_r:.3e}; margin g={float(g):.3e} from {source})"))
@@ -2118,14 +2186,69 @@ def run_cases(ctx: Ctx, cases, out: Outcome):
         out.notes.append("Lean model unavailable: oracle only")
 
 
-def random_motion_stream(ctx: Ctx, out: Outcome):
+R_TOL = Fraction(1, 10**12)  # entrywise |model M - numpy M|
+R_DEFECT = Fraction(1, 10**25)  # normalisation defects of the driver's rational sin/cos/sqrt (hypotheses of Props/C12RandRot.lean)
+
+
+def flush_pending(ctx: Ctx, pend, out: Outcome):
+    out.count("model_lines", len(pend))
+    if ctx.model_available and pend:
+        answers = run_model_chunks(ctx, [p.line for p in pend])
+        for p, a in zip(pend, answers):
+            p.cmp(a)
+    elif pend:
+        out.notes.append("Lean model unavailable: oracle only")
+
+
+def cmp_random_rotation(case, M, out: Outcome):
+    """driver op R: the model of random_rotation_matrix (Model/RandRot.lean) evaluated on the exact rationals of the three
+    uniform doubles numpy's seeded generator produced; every entry must agree with the implementation's matrix to 1e-12, and the
+    hypotheses of `randomRotationMatrix_proper` must hold at the driver's approximations of sin/cos/sqrt to 1e-25 (so the
+    model's own matrix is orthogonal with det 1 to that accuracy: reported as `orth`, `det1`)"""
+    Mf = [Fraction(float(x)) for x in np.asarray(M, dtype=float).ravel()]
+
+    def cmp(ans):
+        out.count("R:lines")
+        bad = None
+        try:
+            if not ans.startswith("ok "):
+                raise ValueError(ans)
+            d = parse_kv(ans)
+            mm = [parse_rat(x) for x in d["M"].split(",")]
+            if len(mm) != 9:
+                raise ValueError("entries")
+            worst = max(abs(a - b) for a, b in zip(mm, Mf))
+            defects = [abs(parse_rat(d[k])) for k in ("nt", "np", "nv", "orth", "det1")]
+            if max(defects) > R_DEFECT:
+                bad = f"normalisation defect of the driver's approximations {float(max(defects)):.3e} > 1e-25"
+            elif worst > R_TOL:
+                k = max(range(9), key=lambda i: abs(mm[i] - Mf[i]))
+                bad = f"entry [{k // 3},{k % 3}]: model {float(mm[k])!r} implementation {float(Mf[k])!r} (|diff| {float(worst):.3e} > 1e-12)"
+            else:
+                out.count("R:agree(<=1e-12 entrywise)")
+        except Exception as e:  # noqa
+            bad = f"unreadable answer {ans[:120]!r} ({type(e).__name__})"
+        if bad:
+            out.mismatches.append(Finding("mismatch:R", {"case": case}, observed=bad, expected="model of random_rotation_matrix = implementation entrywise to 1e-12",
+                                          detail="np_rand3drot.random_rotation_matrix vs Model/RandRot.lean on the captured uniform numbers"))
+
+    return cmp
+
+
+def random_motion_stream(ctx: Ctx, out: Outcome, pend=None):
     """The library's OWN generator of rigid copies (Molecule.scramble with do_rotate=True / do_shift=True and its `deflection`
     argument, util.random_rotation_matrix): the copy it makes must be a rigid image of the reference (every interatomic distance
     kept, handedness kept), the motion it reports a proper rotation, and aligning the copy back must give RMSD ~ 0 — for every
-    deflection in (0, 1], not only the default 1.0.  Oracle only (the motion is drawn by numpy's global generator, seeded per case)."""
+    deflection in (0, 1], not only the default 1.0.  The motion is drawn by numpy's global generator, seeded per case.
+    Correspondence (driver op R): the three uniform numbers that generator hands to random_rotation_matrix are captured (same
+    seed, same draw `np.random.uniform(size=(3,))`, and cross-checked by calling the function again with `randnums=` — the two
+    matrices must be bitwise equal) and the Lean model is evaluated on their exact rationals."""
     import qcelemental as qcel
 
     rng = ctx.rng
+    own = pend is None
+    if own:
+        pend = []
     for k in range(ctx.scale(60, 600)):
         defl = rng.choice([1.0, 1.0, 0.75, 0.5, 0.3, 0.1, 0.02])
         seed = rng.randrange(2**31)
@@ -2138,7 +2261,17 @@ def random_motion_stream(ctx: Ctx, out: Outcome):
         out.nontrivial(repr((defl, seed, case["R"][0])))
         try:
             np.random.seed(seed)
+            u = np.array(np.random.uniform(size=(3,)), dtype=float)  # what the function will draw (np_rand3drot.py:29)
+            np.random.seed(seed)
             M = np.asarray(qcel.util.random_rotation_matrix(deflection=defl))
+            if ctx.model_available:
+                M2 = np.asarray(qcel.util.random_rotation_matrix(deflection=defl, randnums=u.copy()))
+                if M.shape != (3, 3) or M2.shape != (3, 3) or M.tobytes() != M2.tobytes():
+                    out.mismatches.append(Finding("mismatch:R-capture", {"case": case}, observed="random_rotation_matrix(deflection) after np.random.seed(s) differs from random_rotation_matrix(deflection, randnums=first three uniforms after seed(s))",
+                                                  expected="bitwise equal", detail="the three random numbers could not be captured"))
+                else:
+                    case["randnums"] = [float(x).hex() for x in u]
+                    pend.append(Pending("R|" + fr(defl) + "|" + "|".join(fr(x) for x in u), cmp_random_rotation(case, M, out)))
             if float(np.max(np.abs(M @ M.T - np.eye(3)))) > 1e-10 or abs(float(np.linalg.det(M)) - 1.0) > 1e-10:
                 out.violations.append(Finding("oracle:random_rotation_not_proper", {"case": case}, observed={"det": float(np.linalg.det(M)), "orth_defect": float(np.max(np.abs(M @ M.T - np.eye(3))))},
                                               expected="orthogonal, det +1", detail=f"random_rotation_matrix(deflection={defl}) is not a proper rotation"))
@@ -2159,6 +2292,8 @@ def random_motion_stream(ctx: Ctx, out: Outcome):
                                               detail="the library's own rigid copy is not aligned back onto the reference"))
         except Exception as e:  # noqa
             out.violations.append(Finding("oracle:raised", {"case": case}, observed=err_class(e) + ": " + str(e)[:200], detail="random_rotation_matrix / scramble / align raised on an in-scope input"))
+    if own:
+        flush_pending(ctx, pend, out)
 
 
 def run(ctx: Ctx) -> Outcome:
